@@ -695,6 +695,45 @@ def _make_socket(*a, **k):
     return FakeSocket(*a, **k)
 
 
+class FakeSctpSocket(FakeSocket):
+    """What the node uses of a pysctp one-to-one socket (`sctp.sctpsocket_tcp`): the plain socket calls (pysctp hands them to the
+    socket it wraps) plus `bindx`, `connectx` and `sctp_send`.  Byte-stream semantics as for FakeSocket - the node frames its own
+    messages, so the property monitors read the same log; the flags of every `sctp_send` are noted."""
+
+    def __init__(self, family=None, *a, **k):
+        super().__init__(family)
+        self.proto = "sctp"
+        self.sctp_flags = []
+
+    def bindx(self, addrs, *a):
+        if self.closed:
+            raise OSError(_errno.EBADF, "Bad file descriptor")
+        self.addr = list(addrs)[0]
+
+    def connectx(self, addrs, *a):
+        return self.connect(tuple(list(addrs)[0]))
+
+    def sctp_send(self, msg, to=("", 0), ppid=0, flags=0, stream=0, timetolive=0, context=0):
+        self.sctp_flags.append(flags)
+        return self.send(msg)
+
+
+def _make_sctp_socket(*a, **k):
+    w = _W()
+    if w.socket_fail > 0:
+        w.socket_fail -= 1
+        w.obs("socket_fail")
+        raise OSError(_errno.EMFILE, "Too many open files")
+    return FakeSctpSocket(*a, **k)
+
+
+class SctpShim:
+    """Stands in for the `sctp` module (pysctp) in diameter.node.node."""
+    sctpsocket_tcp = staticmethod(_make_sctp_socket)
+    sctpsocket = FakeSctpSocket
+    MSG_UNORDERED = 1
+
+
 class SocketShim:
     socket = staticmethod(_make_socket)
     error = OSError
@@ -861,6 +900,9 @@ def install():
                 raise HarnessError(f"seam `{seam}` is no longer a module global of {m.__name__}")
     th, ts, qs, osh = ThreadingShim(), TimeShim(), QueueShim(), OsShim()
     nn.threading = th; nn.time = ts; nn.select = SelectShim(); nn.socket = SocketShim(); nn.os = osh
+    if "sctp" not in vars(nn):
+        raise HarnessError("seam `sctp` is no longer a module global of diameter.node.node")
+    nn.sctp = SctpShim()            # pysctp is absent from the image; the SCTP branches of the node run on the fake layer
     pp.threading = th; pp.time = ts; pp.queue = qs; pp.os = osh
     aa.threading = th; aa.queue = qs
     hh.threading = th; hh.time = ts; hh.random = RandomShim()
